@@ -21,9 +21,14 @@ PROPS = {
     ),
     "C18": dict(
         modules=["Fuota.Props.C18"],
-        suites=[dict(name="d1f", cfg="matrix")],
-        rule="one scenario per (session, storage-call index): the call fails once without effect, the same block is "
-             "redelivered, the session is continued; the reconstructor runs on instrumented in-memory stores",
+        suites=[dict(name="d1f", cfg="matrix"),
+                dict(name="d5f", cfg="matrix", keys=["res", "ops", "recv", "total", "complete"]),
+                dict(name="d5fr", cfg="matrix", oracle_only=True)],
+        rule="d1f: one scenario per (session, storage-call index): the call fails once without effect, the same block "
+             "is redelivered, the session is continued (reconstructor on instrumented in-memory stores); d5f: the same "
+             "at flash level through SlotManager/Updater on the NOR simulator (fault on each mutating SpiFlash op of each "
+             "fragment, redelivery, completion, final check with exact image); d5fr: faults on any op incl. reads "
+             "(implementation oracle only)",
         trusted=["crate bitvec / core as compiled"],
         assumptions=["a failed storage operation has no effect on the medium"],
     ),
@@ -79,5 +84,26 @@ PROPS = {
         assumptions=["NOR program = bitwise AND (MultiwriteNorFlash semantics for the data adapter)",
                      "addresses below 2^32 (the `as u32` casts of flash.rs are not modelled)",
                      "range start/end multiples of the write size (implied by a successful erase in `new`)"],
+    ),
+    "C07": dict(
+        modules=["Fuota.Props.C07"],
+        suites=[dict(name="d5r", cfg="matrix", keys=["res", "recv", "total", "complete", "s0", "s1", "s2", "s3", "s4", "s5"])],
+        rule="per generated session: the uninterrupted run is recorded, then for every position between two operations "
+             "(sampled in quick tier; always incl. before the first fragment and after completion before the mark) a twin "
+             "run with 1..3 reboot+try_recover at that position; outcomes of every later fragment, counters after "
+             "recovery, final check and the final flash digests are compared with the uninterrupted run",
+        trusted=["crate bitvec / core as compiled"],
+        assumptions=["geometries with parity capacity >= 1 (with capacity 0 the parity header never parses)"],
+    ),
+    "C06": dict(
+        modules=["Fuota.Props.C06"],
+        suites=[dict(name="d5c", cfg="matrix", keys=["res", "recv", "total", "complete", "s0", "s1", "s2", "s3", "s4", "s5"])],
+        rule="per generated session: power loss before mutating flash operation k of operation j, for every (j, k) of "
+             "start_update, every handle_segment and check_and_mark_done (sampled in quick tier, every site class "
+             "kept); reboot, try_recover, the interrupted fragment lost or re-sent, the rest of the transmission, one "
+             "full pass of the data, final check with exact image; crash sites are classified from the operation's "
+             "address (start / data / status / parity-block / row / row-lost / finish / mark)",
+        trusted=["crate bitvec / core as compiled"],
+        assumptions=["power loss = the device refuses every operation from the crash point on; erase is atomic per block"],
     ),
 }
